@@ -20,7 +20,7 @@ Spec (SPECFAIL, reported before a tie difference because it is a concrete failin
   * if the segment list the LIBRARY hands to computeCrossings (one EdgeSegment per edge of its overlap-free graph)
     satisfies `goodB` (= hypothesis `Good` of the sweep theorems, `goodB_sound`): the crossing nodes are exactly the
     points (v.cc, h.cc) with  h.lo < v.cc ≤ h.hi, v.lo < h.cc < v.hi  (`crossings_sound/_complete`), no two edges of the
-    planar graph cross (`planarise_no_crossing_partial`), every edge of the overlap-free graph is connected through
+    planar graph cross (`sweep_no_crossing`), every edge of the overlap-free graph is connected through
     crossing nodes only (`sweep_preserves_connections`);
   * if the route segments the model builds from the input satisfy `goodAB` (= `GoodA`, `goodAB_sound`): the library's
     overlap-free graph must satisfy `goodB` (`overlap_removal_good`);
@@ -155,7 +155,7 @@ def checkPlanX (c : Case) : CaseResult := Id.run do
     | none => pure ()
     if implCross.length != want.length then
       return { verdict := .specfail s!"planarise: {implCross.length} crossing nodes for {want.length} crossing points", stats := stats }
-    -- planarise_no_crossing_partial / planarise_preserves_nodes_and_connections_partial under the same hypothesis:
+    -- sweep_no_crossing / planarise_preserves_nodes_and_connections_partial under the same hypothesis:
     -- no two edges of the planar graph cross, every edge of the overlap-free graph is still connected through
     -- crossing nodes only
     let posI (i : Nat) : Option Pt := (qn.find? (fun n => n.id == i)).map (·.p)
@@ -163,7 +163,7 @@ def checkPlanX (c : Case) : CaseResult := Id.run do
     let segsI := qeRaw.filterMap (fun e => match posI e.1, posI e.2 with
       | some a, some b => some (a, b) | _, _ => none)
     match firstProperCross segsI with
-    | some (s, t) => return { verdict := .specfail s!"planarise: edges {showPt s.1}-{showPt s.2} and {showPt t.1}-{showPt t.2} cross (planarise_no_crossing_partial)", stats := stats }
+    | some (s, t) => return { verdict := .specfail s!"planarise: edges {showPt s.1}-{showPt s.2} and {showPt t.1}-{showPt t.2} cross (sweep_no_crossing)", stats := stats }
     | none => pure ()
     match (c.get "oe").toList.find? (fun l => !chainB onIds qeRaw (nat! l[0]!) (nat! l[1]!)) with
     | some l => return { verdict := .specfail s!"planarise: overlap-free edge {l[0]!}-{l[1]!} not connected through crossing nodes (sweep_preserves_connections)", stats := stats }
